@@ -322,6 +322,7 @@ func runC12(c *core.Ctx, idx int) {
 	for i := 0; i < 7; i++ {
 		tbl.Types[c12Sym("p", i)] = ast.NodeTypeBool
 		tbl.Types[c12Sym("n", i)] = ast.NodeTypeInt64
+		tbl.Types["mq."+c12Sym("e", i)] = ast.NodeTypeAnyType // a map element (typed per row), holding a bool
 	}
 	for i := 0; i < 7; i++ {
 		tbl.Types[c12Sym("ts", i)] = ast.NodeTypeString
@@ -656,6 +657,9 @@ func c12Op(lhs ql.Stream, op, rhs string) ql.Stream {
 }
 
 var c12Kinds = []c12Kind{
+	// a map element holding a bool, standing on its own as an operand
+	{name: "bare map element (bool)", text: func(i int) ql.Stream { return ql.Stream{ql.T("mq." + c12Sym("e", i))} },
+		set: func(row *memsym.Row, i int, v bool) { row.Vals["mq."+c12Sym("e", i)] = v }},
 	c12ScalarKind("int in", "n", "in", "[1, 7]", int64(1), int64(0)),
 	c12ScalarKind("int between (upper bound exclusive)", "n", "between", "1 and 3", int64(1), int64(3)),
 	c12SetKind("anyOf in", "anyOf", "ts", "in", `["a"]`, c12Strs("a", "b"), c12Strs("b", "c")),
